@@ -1,2 +1,3 @@
 import TsModel.Storage
 import TsModel.Serial
+import TsModel.Shard
